@@ -81,6 +81,8 @@ def got_tree(t):
 
 from ..bridge import canon as bridge_canon
 
+SISTER = {'brackets': 'discobrackets', 'discobrackets': 'brackets', 'export': 'tigerxml', 'tigerxml': 'export'}
+
 
 def run_reader(fn, path, enc, **opts):
     """Iterate a reader; returns (trees, exception or None, stdout, stderr)."""
@@ -428,6 +430,31 @@ def check_corpus(fmt, mtjs, layout, opts):
         text = codecs.encode_tigerxml(mts, encoding=enc, **enc_kw)
     path = write_file(fmt, text, opts, enc)
     trees_, err, so, se = run_reader(getattr(treeinput, fmt), path, enc, **ropts)
+    if err is None and not opts.get('gz') and enc == 'utf-8' and fmt in SISTER:
+        # another reader alive: a generator of the sister format (brackets <-> discobrackets, export <-> TIGER-XML) was
+        # started on another file and is half-way through it while this file is read again
+        sfmt = SISTER[fmt]
+        spath = os.path.join(scratch(), 'sister.' + sfmt)
+        two = [model.MT(901, model.mk_tokens(2), ('VROOT', '--', (('NP', 'HD', (1,)), 2))),
+               model.MT(902, model.mk_tokens(1), ('VROOT', '--', (1,)))]
+        with open(spath, 'w', encoding='utf-8') as f:
+            f.write({'export': codecs.encode_export, 'brackets': codecs.encode_brackets, 'discobrackets': codecs.encode_discobrackets,
+                     'tigerxml': codecs.encode_tigerxml}[sfmt](two))
+        again, err2 = [], None
+        with contextlib.redirect_stdout(io.StringIO()), contextlib.redirect_stderr(io.StringIO()):
+            try:
+                other = getattr(treeinput, sfmt)(spath, 'utf-8', quiet=True)
+                next(other, None)
+                again = list(getattr(treeinput, fmt)(path, enc, **ropts))
+                rest = list(other)
+            except Exception as e:
+                err2 = e
+        os.unlink(spath)
+        if err2 is not None:
+            bad('interleaved-readers', 'read while a %s reader on another file was alive: %s: %s' % (sfmt, type(err2).__name__, err2))
+        elif [bridge_canon(x) for x in again] != [bridge_canon(x) for x in trees_] or len(rest) != 1:
+            bad('interleaved-readers', 'read while a %s reader on another file was alive: %d trees (alone: %d); the other reader '
+                'delivered %d more trees (expected 1)' % (sfmt, len(again), len(trees_), len(rest)))
     if err is None and opts.get('gz'):
         # two readers alive at once: the same file is read again while a second reader on ANOTHER compressed file
         # (the corpus repeated four times, other sentence ids) is advanced in lockstep; the trees of the first must
